@@ -223,6 +223,20 @@ TRUSTED_BASE = [
 ]
 
 
+def guarded_run(session, ctx):
+    """a session that cannot interpret what the implementation produced (an unexpected exception while building,
+    observing or judging real objects) has lost its correspondence: recorded as a diff, not as an infrastructure error.
+    Infra (driver missing/crashed, tool failure) still propagates and ends in exit 2."""
+    import traceback
+    try:
+        session.run(ctx)
+    except Infra:
+        raise
+    except Exception as e:
+        tb = traceback.format_exc()
+        ctx.diff("harness-cannot-interpret-implementation", f"{type(e).__name__}: {e}", dict(traceback=tb[-1500:]))
+
+
 def run_check(pid, session, tier, seed, replay_path=None):
     """the verdict logic of DESIGN §2.3; returns the process exit code"""
     t0 = time.time()
@@ -231,7 +245,7 @@ def run_check(pid, session, tier, seed, replay_path=None):
     lean = lean_stage(pid, tier == "thorough")
     ctx = Ctx(pid, tier, seed)
     if DRV.exists():
-        session.run(ctx)
+        guarded_run(session, ctx)
     else:
         lean["problems"].append("model driver not built")
         lean["ok"] = False
@@ -239,10 +253,14 @@ def run_check(pid, session, tier, seed, replay_path=None):
     if (ctx.diffs or not lean["ok"]) and not ctx.fails and DRV.exists():
         # proof or correspondence broken: search harder for a concrete failing input on the real code
         widened = True
-        for k in range(1, 4):
-            c2 = Ctx(pid, tier, seed + 7919 * k, scale=4)
+        budget = float(os.environ.get("VERIF_WIDEN_S", "240" if tier == "thorough" else "60"))
+        t_w = time.time()
+        for k in range(1, 7):
+            if time.time() - t_w > budget:
+                break
+            c2 = Ctx(pid, tier, seed + 7919 * k, scale=2 if k > 1 else 1)
             try:
-                session.run(c2)
+                guarded_run(session, c2)
             except Infra:
                 break
             ctx.evaluations += c2.evaluations
